@@ -153,6 +153,12 @@ class F:
                     return b, a, "bytes"
                 if k == "val" and isinstance(n.func.value, ast.Name) and n.func.value.id in self.known_str:
                     return b, f"{a}.strBytes", "bytes"
+            if isinstance(n.func, ast.Attribute) and n.func.attr == "ljust" and len(n.args) == 1 and not n.keywords:
+                b, a, k = self.ex(n.func.value)
+                a = self.as_bytes(a, k, n.func.value)
+                b2, w, kw_ = self.ex(n.args[0])
+                if kw_ in ("int", "nat"):
+                    return b + b2, f"(ljust {a} {w})", "bytes"
             if isinstance(n.func, ast.Attribute) and n.func.attr == "copy" and not n.args:
                 b, a, k = self.ex(n.func.value)
                 if k == "dict":
@@ -577,6 +583,48 @@ class F:
         return f"def {self.fn.name} {sig} : Except String ({rty}) :=\n{body}\n"
 
 
+def _prepare(fn: ast.FunctionDef, tree: ast.Module) -> ast.FunctionDef:
+    """source normalisation before the statement-by-statement translation: calls of private helpers the translator
+    does not know (`_encode_string`, `_read_value`, … extracted by a refactor) are hoisted to statement level and
+    inlined; `d[k] = v` is written `d.update({k: v})`-free (both are `Dict.set`).  The functions of ORDER are
+    never inlined: they are translated themselves."""
+    import copy
+    import normalize
+    known = set(ORDER)
+    helpers = {n.name for n in tree.body if isinstance(n, ast.FunctionDef) and n.name.startswith("_") and n.name not in known}
+    fn = copy.deepcopy(fn)
+    counter = [0]
+
+    def hoist(stmts):
+        out = []
+        for st in stmts:
+            pre = []
+            if isinstance(st, (ast.Return, ast.Assign, ast.AugAssign)) and st.value is not None:
+                top = st.value
+
+                class H(ast.NodeTransformer):
+                    def visit_Call(self, node):
+                        node = self.generic_visit(node)
+                        if isinstance(node.func, ast.Name) and node.func.id in helpers and not node.keywords \
+                                and not (node is top and isinstance(st, ast.Assign)):
+                            counter[0] += 1
+                            nm = f"h{counter[0]}_{node.func.id.strip('_')}"
+                            pre.append(ast.Assign(targets=[ast.Name(id=nm, ctx=ast.Store())], value=node))
+                            return ast.Name(id=nm, ctx=ast.Load())
+                        return node
+                st.value = H().visit(st.value)
+            for fld in ("body", "orelse", "finalbody"):
+                sub = getattr(st, fld, None)
+                if isinstance(sub, list) and sub and isinstance(sub[0], ast.stmt):
+                    setattr(st, fld, hoist(sub))
+            out += pre + [st]
+        return out
+    fn.body = hoist(fn.body)
+    ast.fix_missing_locations(fn)
+    sub = ast.Module(body=[n for n in tree.body if not (isinstance(n, ast.FunctionDef) and n.name in known)], type_ignores=[])
+    return normalize.inline_helpers(fn, sub)
+
+
 def translate_codec(tree: ast.Module):
     """yield (name, lean text | Untranslatable)"""
     fns = {n.name: n for n in tree.body if isinstance(n, ast.FunctionDef)}
@@ -585,7 +633,7 @@ def translate_codec(tree: ast.Module):
         try:
             if name not in fns:
                 raise Untranslatable(f"function {name} not found")
-            text = F(fns[name], done).translate()
+            text = F(_prepare(fns[name], tree), done).translate()
             done.add(name)
             yield name, text
         except Untranslatable as e:
@@ -622,14 +670,43 @@ def translate_radec(fn: ast.FunctionDef) -> str:
 
     fields = None
     cnt = 0
+    fstrings: dict[str, ast.JoinedStr] = {}
+    stmts: list[ast.stmt] = []
     for st in fn.body:
+        if isinstance(st, ast.Return) and isinstance(st.value, ast.Call) and st.value.args \
+                and isinstance(st.value.args[0], ast.JoinedStr) and "SkyCoord" in ast.unparse(st.value.func):
+            # `return SkyCoord(f"…", unit=…)`: the string is built in the call
+            stmts.append(ast.Assign(targets=[ast.Name(id="radec_str", ctx=ast.Store())], value=st.value.args[0]))
+            stmts.append(ast.Return(value=ast.Call(func=st.value.func, args=[ast.Name(id="radec_str", ctx=ast.Load())],
+                                                   keywords=st.value.keywords)))
+        else:
+            stmts.append(st)
+
+    def flat(js: ast.JoinedStr) -> list[ast.AST]:
+        vals: list[ast.AST] = []
+        for p in js.values:
+            if isinstance(p, ast.FormattedValue) and isinstance(p.value, ast.Name) and p.value.id in fstrings \
+                    and p.format_spec is None and p.conversion == -1:
+                vals += flat(fstrings[p.value.id])          # a string built earlier is spliced where it is used
+            else:
+                vals.append(p)
+        out2: list[ast.AST] = []
+        for p in vals:
+            if isinstance(p, ast.Constant) and out2 and isinstance(out2[-1], ast.Constant):
+                out2[-1] = ast.Constant(value=out2[-1].value + p.value)
+            else:
+                out2.append(p)
+        return out2
+
+    for st in stmts:
         if isinstance(st, ast.Expr) and isinstance(st.value, ast.Constant):
             continue
         if isinstance(st, ast.Assign) and isinstance(st.targets[0], ast.Tuple) and isinstance(st.value, ast.Call) \
                 and ast.unparse(st.value.func) == "divmod" and len(st.value.args) == 2 and len(st.targets[0].elts) == 2:
             a, b = q(st.value.args[0]), q(st.value.args[1])
             cnt += 1
-            qn, rn = (f"{e.id}{cnt}" for e in st.targets[0].elts)
+            names = ("ho", "mi", "mi", "se", "de", "ami", "ami", "ase")      # canonical names by position
+            qn, rn = (f"{names[2 * (cnt - 1) + i] if cnt <= 4 else e.id}{cnt}" for i, e in enumerate(st.targets[0].elts))
             lines.append(f"  let {qn} : Rat := ((({a} / {b}).floor : Int) : Rat)")
             lines.append(f"  let {rn} : Rat := {a} - {b} * {qn}")
             env[st.targets[0].elts[0].id], env[st.targets[0].elts[1].id] = qn, rn
@@ -640,12 +717,16 @@ def translate_radec(fn: ast.FunctionDef) -> str:
                     and isinstance(v.test, ast.Compare) and len(v.test.ops) == 1 and isinstance(v.test.ops[0], ast.Lt) \
                     and ast.unparse(v.test.comparators[0]) == "0":
                 c = f"decide ({q(v.test.left)} < 0)"
-                lines.append(f"  let {st.targets[0].id} : Bool := " + (c if v.body.value == "-" else f"!{c}"))
-                env[st.targets[0].id] = st.targets[0].id + "!"      # marks a sign variable
+                lines.append("  let sign : Bool := " + (c if v.body.value == "-" else f"!{c}"))
+                env[st.targets[0].id] = "sign!"      # marks a sign variable
                 continue
-        if isinstance(st, ast.Assign) and isinstance(st.value, ast.JoinedStr):
+        if isinstance(st, ast.Assign) and isinstance(st.value, ast.JoinedStr) and isinstance(st.targets[0], ast.Name):
+            values = flat(st.value)
+            if sum(isinstance(k, ast.FormattedValue) for k in values) != 7:
+                fstrings[st.targets[0].id] = ast.JoinedStr(values=values)     # a partial string
+                continue
             parts = []
-            for p in st.value.values:
+            for p in values:
                 if isinstance(p, ast.Constant):
                     parts.append(("lit", p.value))
                 elif isinstance(p, ast.FormattedValue) and p.format_spec is None and p.conversion == -1:
@@ -653,7 +734,7 @@ def translate_radec(fn: ast.FunctionDef) -> str:
                     if isinstance(v, ast.Call) and ast.unparse(v.func) == "int" and len(v.args) == 1:
                         parts.append(("int", q(v.args[0])))
                     elif isinstance(v, ast.Name) and env.get(v.id, "").endswith("!"):
-                        parts.append(("sign", v.id))
+                        parts.append(("sign", "sign"))
                     else:
                         parts.append(("rat", q(v)))
                 else:
@@ -691,6 +772,10 @@ def translate_frames(hdr_tree: ast.Module) -> list[tuple[str, str | Untranslatab
             if isinstance(node, ast.Dict):
                 for k, v in zip(node.keys, node.values):
                     if isinstance(k, ast.Constant) and k.value in ("pulsarcentric", "barycentric"):
+                        if isinstance(v, ast.Call) and ast.unparse(v.func) == "int" and len(v.args) == 1 \
+                                and isinstance(v.args[0], ast.Compare):
+                            # int(cond) is `1 if cond else 0`
+                            v = ast.IfExp(test=v.args[0], body=ast.Constant(value=1), orelse=ast.Constant(value=0))
                         if not (isinstance(v, ast.IfExp) and isinstance(v.test, ast.Compare) and len(v.test.ops) == 1
                                 and isinstance(v.test.ops[0], ast.Eq) and ast.unparse(v.test.left) == "self.frame"
                                 and isinstance(v.test.comparators[0], ast.Constant)
@@ -713,6 +798,28 @@ def translate_frames(hdr_tree: ast.Module) -> list[tuple[str, str | Untranslatab
             fn = fns[fname]
             chain = next((s for s in fn.body if isinstance(s, ast.If)
                           and any(isinstance(x, ast.Assign) and ast.unparse(x.targets[0]) == "frame" for x in s.body)), None)
+            if chain is None:
+                # `frame = _helper(header)` with `if header.get(..): return ".."; …; return ".."` in the helper
+                call = next((s for s in fn.body if isinstance(s, ast.Assign) and ast.unparse(s.targets[0]) == "frame"
+                             and isinstance(s.value, ast.Call) and isinstance(s.value.func, ast.Name)
+                             and [ast.unparse(a) for a in s.value.args] == ["header"]), None)
+                helper = next((n for n in hdr_tree.body if isinstance(n, ast.FunctionDef) and call is not None
+                               and n.name == call.value.func.id), None)
+                if helper is not None:
+                    hb = [s for s in helper.body if not (isinstance(s, ast.Expr) and isinstance(s.value, ast.Constant))]
+                    node = None
+                    for s2 in reversed(hb):
+                        if isinstance(s2, ast.Return) and node is None:
+                            node = [ast.Assign(targets=[ast.Name(id="frame", ctx=ast.Store())], value=s2.value)]
+                        elif isinstance(s2, ast.If) and not s2.orelse and len(s2.body) == 1 and isinstance(s2.body[0], ast.Return) \
+                                and node is not None:
+                            node = [ast.If(test=s2.test, body=[ast.Assign(targets=[ast.Name(id="frame", ctx=ast.Store())],
+                                                                            value=s2.body[0].value)], orelse=node)]
+                        else:
+                            node = None
+                            break
+                    if node and isinstance(node[0], ast.If):
+                        chain = node[0]
             if chain is None:
                 raise Untranslatable(f"{fname}: no frame selection")
             arms = []
